@@ -1,16 +1,39 @@
 import Rtsp.Generated.Facts.Ring
-import Rtsp.Model.Ring
-import Rtsp.Model.Async
-import Rtsp.Spec.BoundedFifo
+import Rtsp.Proofs.RingQueue
+import Rtsp.Proofs.RingConcD
+import Rtsp.Proofs.AsyncProps
 /-
-C16 — outbound write queue: FIFO, bounded, loss only when signalled.
-(theorems are added below as they are proved; see props/C16.json)
+C16 — Outbound write queue: FIFO, bounded, loss only when signalled.
+
+  "Items accepted by the outbound queue are executed exactly once, in acceptance order, by a single
+   consumer; an item is refused - and the caller told - only when the queue already holds its
+   configured capacity, and nothing runs after Close has returned.  This holds under any number of
+   concurrent producers and any interleaving with Start and Close: every concurrent history is
+   linearizable to a bounded FIFO queue, a waiting consumer is always woken by a push or a close,
+   and a processing error stops the queue and is reported exactly once."
+
+Models: Model/Ring.lean (pkg/ringbuffer, one function per critical section), Model/RingConc.lean
+(threads, mutex, sync.Cond), Model/Async.lean (internal/asyncprocessor), Spec/BoundedFifo.lean.
+The theorems below are the ones listed in props/C16.json; their proofs are in Proofs/Ring*.lean,
+Proofs/FifoProps.lean, Proofs/Async*.lean.  All of them hold for EVERY capacity ≥ 1 (the Go
+constructor only admits powers of two, which nothing below needs), every operation sequence /
+schedule and any number of producers.
+
+"Exactly once" is split as the property's own wording suggests: at most once + in order always
+(`fifo_order`, `executed_at_most_once`, `Async.prefix_executed`); exactly once unless Close or an
+error — the two signalled cases — intervened (`fifo_order`'s equation, `Async.exactly_once_while_open`,
+`Async.drain`).
 -/
 namespace Rtsp.C16
 open Rtsp.Facts
+open Rtsp.Ring (Ring Op Res PullRes RingInv abs absItems)
+open Rtsp.Fifo (accepted pulled pushes noCloseReset noReset)
 
 /-- Structure facts regenerated from /repo on every run: the shape of the critical sections the
-model mirrors.  If one of them stops matching, this file no longer compiles. -/
+models mirror (lock before any access, `Broadcast` after `Unlock` in `Push` and `Close`, `Pull`
+re-tests in a loop around `cond.Wait()`, `runInner` stops at the first error after one `OnError`,
+`Close` = cancel; close ring; join if running).  If one of them stops matching, this no longer
+compiles. -/
 theorem structure_facts :
     Ring.lockCount = 3 ∧ Ring.broadcastCount = 2 ∧ Ring.waitCount = 1 ∧
     Ring.pushLocksBeforeBuffer = true ∧ Ring.closeLocksAndBroadcastsAfterUnlock = true ∧
@@ -18,5 +41,240 @@ theorem structure_facts :
     Ring.newRejectsNonPowerOfTwo = true ∧ Ring.runInnerStopsOnError = true ∧
     Ring.closeCancelsClosesJoins = true ∧ Ring.runClosesDone = true ∧
     Ring.pushDelegatesToRing = true := by decide
+
+/-! ## 1. Sequential ring: invariant and refinement to the bounded FIFO -/
+
+variable {α : Type}
+
+/-- `RingInv` (occupied slots = one cyclic interval ending at `writeIndex`, starting at `readIndex`
+while open) holds after `New` and is preserved by every operation. -/
+theorem ringInv_new {size : Nat} (h : 0 < size) : RingInv (Rtsp.Ring.new (α := α) size) :=
+  Rtsp.Ring.ringInv_new h
+theorem ringInv_step {r : Ring α} (hr : RingInv r) (op : Op α) : RingInv (Rtsp.Ring.step r op).1 :=
+  Rtsp.Ring.ringInv_step hr op
+
+theorem push_refines {r : Ring α} (hr : RingInv r) (x : α) :
+    Fifo.push (abs r) x = (abs (Rtsp.Ring.push r x).1, (Rtsp.Ring.push r x).2) :=
+  (Rtsp.Ring.push_refines hr x).2
+theorem pull_refines {r : Ring α} (hr : RingInv r) :
+    Fifo.pull (abs r) = (abs (Rtsp.Ring.pullTry r).1, (Rtsp.Ring.pullTry r).2) :=
+  (Rtsp.Ring.pull_refines hr).2
+theorem close_refines {r : Ring α} (hr : RingInv r) : Fifo.close (abs r) = abs (Rtsp.Ring.close r) :=
+  (Rtsp.Ring.close_refines hr).2
+theorem reset_refines {r : Ring α} (hr : RingInv r) : Fifo.reset (abs r) = abs (Rtsp.Ring.reset r) :=
+  (Rtsp.Ring.reset_refines hr).2
+
+/-- every run of the ring from `New(size)`, over any operation sequence, returns exactly what the
+bounded FIFO of capacity `size` returns and ends in the abstraction of the FIFO's final state -/
+theorem run_refines {size : Nat} (h : 0 < size) (ops : List (Op α)) :
+    Fifo.run (Fifo.new size) ops =
+      (abs (Rtsp.Ring.run (Rtsp.Ring.new size) ops).1, (Rtsp.Ring.run (Rtsp.Ring.new size) ops).2) :=
+  Rtsp.Ring.run_new_refines h ops
+
+/-- **FIFO order / no loss / no duplication** while open -/
+theorem fifo_order {size : Nat} (h : 0 < size) (ops : List (Op α)) (hops : noCloseReset ops) :
+    accepted ops (Rtsp.Ring.run (Rtsp.Ring.new size) ops).2 =
+      pulled (Rtsp.Ring.run (Rtsp.Ring.new size) ops).2 ++ absItems (Rtsp.Ring.run (Rtsp.Ring.new size) ops).1 :=
+  Rtsp.Ring.fifo_order h ops hops
+
+/-- the same from any reachable open state (so: in every epoch between Close/Reset) -/
+theorem fifo_order_from {r : Ring α} (hr : RingInv r) (hc : r.closed = false) (ops : List (Op α))
+    (hops : noCloseReset ops) :
+    absItems r ++ accepted ops (Rtsp.Ring.run r ops).2 =
+      pulled (Rtsp.Ring.run r ops).2 ++ absItems (Rtsp.Ring.run r ops).1 :=
+  Rtsp.Ring.fifo_order_from hr hc ops hops
+
+/-- with Close/Reset anywhere, what is pulled is a subsequence of what was accepted -/
+theorem pulled_sublist_accepted {size : Nat} (h : 0 < size) (ops : List (Op α)) :
+    (pulled (Rtsp.Ring.run (Rtsp.Ring.new size) ops).2).Sublist
+      (accepted ops (Rtsp.Ring.run (Rtsp.Ring.new size) ops).2) :=
+  Rtsp.Ring.pulled_sublist_accepted h ops
+
+theorem executed_at_most_once {size : Nat} (h : 0 < size) (ops : List (Op α)) (hd : (pushes ops).Nodup) :
+    (pulled (Rtsp.Ring.run (Rtsp.Ring.new size) ops).2).Nodup :=
+  Rtsp.Ring.executed_at_most_once h ops hd
+
+/-- **refused only when full**: `Push` returns false ⇔ the queue holds `size` items -/
+theorem refused_iff_full {r : Ring α} (hr : RingInv r) (x : α) :
+    (Rtsp.Ring.push r x).2 = false ↔ (abs r).items.length = r.size :=
+  Rtsp.Ring.refused_iff_full hr x
+
+theorem never_over_capacity {size : Nat} (h : 0 < size) (ops : List (Op α)) :
+    (absItems (Rtsp.Ring.run (Rtsp.Ring.new size) ops).1).length ≤ size :=
+  Rtsp.Ring.never_over_capacity h ops
+
+/-- **nothing after close** (until a Reset), whatever is pushed in between -/
+theorem nothing_after_close {r : Ring α} (hr : RingInv r) (ops1 ops2 : List (Op α)) (h2 : noReset ops2) :
+    pulled (Rtsp.Ring.run r (ops1 ++ .close :: ops2)).2 = pulled (Rtsp.Ring.run r ops1).2 :=
+  Rtsp.Ring.nothing_after_close hr ops1 ops2 h2
+
+/-! ### non-vacuity and sample evaluations (tests, not theorems) -/
+
+-- hypotheses are satisfiable by non-trivial values
+example : noCloseReset [Op.push 1, .pull, .push 2, .push 3, .pull] := by simp [noCloseReset]
+example : noReset [Op.push 1, .close, .push 2, .pull] := by simp [noReset]
+example : (pushes [Op.push 1, .push 2, .pull, .close, .push 3]).Nodup := by decide
+example : RingInv (Rtsp.Ring.run (Rtsp.Ring.new (α := Nat) 4) [.push 1, .push 2, .pull, .close, .push 3]).1 :=
+  Rtsp.Ring.ringInv_run (by decide) _
+-- test: a capacity-2 ring wraps, refuses the third item, returns items in order
+example : (Rtsp.Ring.run (Rtsp.Ring.new (α := Nat) 2) [.push 1, .push 2, .push 3, .pull, .push 4, .pull, .pull, .pull]).2 =
+    [.pushed true, .pushed true, .pushed false, .pulled (.item 1), .pushed true, .pulled (.item 2),
+     .pulled (.item 4), .pulled .wait] := by decide
+-- test: the input that failed before /repo commit cd9034b (pushes after Close were pulled, newest first)
+example : (Rtsp.Ring.run (Rtsp.Ring.new (α := Nat) 2) [.push 1, .close, .push 2, .push 3, .push 4, .pull, .reset, .push 5, .pull]).2 =
+    [.pushed true, .done, .pushed true, .pushed true, .pushed false, .pulled .closed, .done, .pushed true,
+     .pulled (.item 5)] := by decide
+-- test: the abstraction of a wrapped ring
+example : absItems (Rtsp.Ring.run (Rtsp.Ring.new (α := Nat) 4) [.push 1, .push 2, .push 3, .pull, .pull, .push 4, .push 5, .push 6]).1 =
+    [3, 4, 5, 6] := by decide
+
+/-! ## 2. Concurrent ring (`Ring.Conc`): any number of producers, a consumer, a closer -/
+
+open Rtsp.RingConc (State Reachable Act Tid holding step? runActs NoLostWakeup BcastPending Visible Prog)
+
+/-- **mutual exclusion** of the critical sections -/
+theorem mutual_exclusion {size : Nat} {s : State α} (h : Reachable size s) (t1 t2 : Tid)
+    (h1 : holding s t1 = true) (h2 : holding s t2 = true) : t1 = t2 :=
+  Rtsp.RingConc.mutual_exclusion h t1 t2 h1 h2
+
+/-- every access to ring state is made by the mutex owner; all other steps leave the ring alone -/
+theorem ring_access_by_owner {size : Nat} {s s' : State α} (h : Reachable size s) {a : Act α}
+    (hs : step? s a = some s') (ha : a.accessesRing = true) : s.owner = some a.tid :=
+  Rtsp.RingConc.ring_access_by_owner h hs ha
+theorem ring_unchanged {s s' : State α} {a : Act α} (hs : step? s a = some s')
+    (ha : a.accessesRing = false) : s'.ring = s.ring :=
+  Rtsp.RingConc.ring_unchanged hs ha
+
+/-- **conc_linearizable**: after any run, with any number of producers, the ring state and every
+value returned to a thread are those of the sequential ring — and of the bounded FIFO — run on the
+critical sections in execution order -/
+theorem conc_linearizable {size : Nat} (hsize : 0 < size) {s : State α} (h : Reachable size s) :
+    Rtsp.Ring.run (Rtsp.Ring.new size) (s.log.map (·.op)) = (s.ring, s.log.map (·.res)) ∧
+    Fifo.run (Fifo.new size) (s.log.map (·.op)) = (abs s.ring, s.log.map (·.res)) ∧
+    RingInv s.ring :=
+  Rtsp.RingConc.conc_linearizable hsize h
+
+/-- **no_lost_wakeup**: a consumer parked in `cond.Wait()` either has nothing to see (slot at
+`readIndex` empty, ring open) or a `Broadcast` is still pending -/
+theorem no_lost_wakeup {size : Nat} {s : State α} (h : Reachable size s) (hw : s.cons = .waiting) :
+    (Rtsp.Ring.slot s.ring s.ring.readIndex = none ∧ s.ring.closed = false) ∨ BcastPending s :=
+  Rtsp.RingConc.noLostWakeup_reachable h hw
+
+/-- **progress**: from every reachable state with an item at the read position or `closed` set,
+a finite schedule makes the consumer's `Pull` return (no deadlock, no lost wake-up) -/
+theorem progress {size : Nat} {s : State α} (h : Reachable size s) (hv : Visible s.ring) : Prog s :=
+  Rtsp.RingConc.progress h hv
+
+theorem reachable_runActs {size : Nat} {s s' : State α} (h : Reachable size s) (acts : List (Act α))
+    (hr : runActs s acts = some s') : Reachable size s' := by
+  induction acts generalizing s with
+  | nil => simp only [runActs] at hr; injection hr with hr; subst hr; exact h
+  | cons a as ih =>
+    simp only [runActs] at hr
+    split at hr
+    · rename_i s1 h1; exact ih (.step a h h1) hr
+    · cases hr
+
+-- non-vacuity: reachable states with a waiting consumer, with and without something to see
+/-- schedule: the consumer finds the ring empty and parks -/
+def exWait : List (Act Nat) := [.consLock, .consBody]
+/-- … then producer 3 pushes 7 and has not broadcast yet -/
+def exPending : List (Act Nat) := exWait ++ [.prodLock 3 7, .prodBody 3]
+/-- … then it broadcasts, the consumer re-acquires, loops and returns 7 -/
+def exDone : List (Act Nat) := exPending ++ [.prodBcast 3, .consReacq, .consUnlock, .consLock, .consBody]
+
+example : (runActs (Rtsp.RingConc.init 2) exWait).map (·.cons) = some .waiting := rfl
+example : (runActs (Rtsp.RingConc.init 2) exPending).map (fun s => (s.cons, Rtsp.Ring.slot s.ring s.ring.readIndex, s.owner)) =
+    some (.waiting, some 7, none) := rfl
+example : (runActs (Rtsp.RingConc.init 2) exDone).map (·.returns) = some [.item 7] := rfl
+example : ∃ s : State Nat, Reachable 2 s ∧ s.cons = .waiting ∧ Visible s.ring := by
+  cases h : runActs (Rtsp.RingConc.init 2) exPending with
+  | none => exact absurd h (by decide)
+  | some s =>
+    refine ⟨s, reachable_runActs .init _ h, ?_, ?_⟩
+    · have : (runActs (Rtsp.RingConc.init 2) exPending).map (·.cons) = some .waiting := rfl
+      rw [h] at this; exact Option.some.inj this
+    · have : (runActs (Rtsp.RingConc.init 2) exPending).map (fun s => Rtsp.Ring.slot s.ring s.ring.readIndex) = some (some 7) := rfl
+      rw [h] at this
+      left; rw [Option.some.inj this]; simp
+
+/-! ## 3. The processor (internal/asyncprocessor) -/
+
+open Rtsp.Async (Proc AOp Cb held)
+
+/-- **error reported exactly once** (once iff a failing callback ran; it is the last that ran) -/
+theorem Async.error_once {size : Nat} {b : Bool} {p : Proc} (h : 0 < size) (hr : Rtsp.Async.Reachable size b p) :
+    p.errors.length ≤ 1 ∧ p.errors = p.executed.filter (·.fails) ∧
+      (∀ c, c ∈ p.errors → p.executed.getLast? = some c) :=
+  Rtsp.Async.error_once h hr
+
+/-- … **and the processor stops** -/
+theorem Async.stops_after_error {size : Nat} {b : Bool} {p : Proc} (h : 0 < size)
+    (hr : Rtsp.Async.Reachable size b p) (he : p.errors ≠ []) (ops : List AOp) :
+    (Rtsp.Async.run p ops).executed = p.executed ∧ (Rtsp.Async.run p ops).errors = p.errors :=
+  Rtsp.Async.stops_after_error h hr he ops
+
+/-- **executed (and in execution) is a prefix of accepted**: acceptance order, at most once -/
+theorem Async.prefix_executed {size : Nat} {b : Bool} {p : Proc} (h : 0 < size)
+    (hr : Rtsp.Async.Reachable size b p) : (p.executed ++ held p) <+: p.accepted :=
+  Rtsp.Async.prefix_executed h hr
+
+/-- **exactly once unless Close intervened**: while the ring is open every accepted callback has
+run, is running, or is still queued, in that order -/
+theorem Async.exactly_once_while_open {size : Nat} {b : Bool} {p : Proc} (h : 0 < size)
+    (hr : Rtsp.Async.Reachable size b p) (hopen : p.ring.closed = false) :
+    p.accepted = p.executed ++ held p ++ absItems p.ring :=
+  Rtsp.Async.exactly_once_while_open h hr hopen
+
+/-- … and when neither Close nor an error intervenes and the consumer runs, everything accepted is
+executed -/
+theorem Async.drain {size : Nat} {b : Bool} {p : Proc} (h : 0 < size) (hr : Rtsp.Async.Reachable size b p)
+    (hopen : p.ring.closed = false) (halive : p.cons = .pulling ∨ ∃ c, p.cons = .holding c)
+    (hok : ∀ c ∈ held p ++ absItems p.ring, c.fails = false) :
+    ∃ cs : List AOp, (∀ o ∈ cs, o = .cpull ∨ o = .cexec) ∧
+      (Rtsp.Async.run p cs).executed = p.accepted ∧ (Rtsp.Async.run p cs).errors = p.errors :=
+  Rtsp.Async.drain h hr hopen halive hok
+
+/-- **nothing runs after Close has returned** -/
+theorem Async.nothing_after_close {size : Nat} {b : Bool} {p : Proc} (h : 0 < size)
+    (hr : Rtsp.Async.Reachable size b p) (hret : p.closer = .returned) (ops : List AOp) :
+    (Rtsp.Async.run p ops).executed = p.executed :=
+  Rtsp.Async.nothing_after_close h hr hret ops
+
+/-- `Close` waits on `done` iff running: it returns only if the consumer was never started or has exited -/
+theorem Async.close_returned_joined {size : Nat} {b : Bool} {p : Proc} (h : 0 < size)
+    (hr : Rtsp.Async.Reachable size b p) (hnot : p.closer ≠ .returned)
+    (hret : (Rtsp.Async.closeStep p).closer = .returned) :
+    p.cons = .notStarted ∨ p.cons = .exited :=
+  Rtsp.Async.close_returned_joined h hr hnot hret
+
+/-- `Close` can always return: after `buffer.Close()` at most two consumer steps make it exit -/
+theorem Async.close_terminates {size : Nat} {b : Bool} {p : Proc} (h : 0 < size)
+    (hr : Rtsp.Async.Reachable size b p) (hcl : p.closer = .ringClosed) :
+    ∃ cs : List AOp, (∀ o ∈ cs, o = .cpull ∨ o = .cexec ∨ o = .cerr) ∧
+      (Rtsp.Async.closeStep (Rtsp.Async.run p cs)).closer = .returned :=
+  Rtsp.Async.close_terminates h hr hcl
+
+-- non-vacuity / tests
+/-- three pushes (the second fails), Start, the consumer runs until the error, Close -/
+def exErr : List AOp :=
+  [.push ⟨1, false⟩, .push ⟨2, true⟩, .push ⟨3, false⟩, .start, .cpull, .cexec, .cpull, .cexec, .cerr, .cpull,
+   .closeStep, .closeStep, .closeStep, .push ⟨4, false⟩, .cpull, .cexec]
+example : Rtsp.Async.Reachable 4 false (Rtsp.Async.run (Rtsp.Async.init 4 false) exErr) := ⟨exErr, rfl⟩
+example : ((Rtsp.Async.run (Rtsp.Async.init 4 false) exErr).executed.map (·.id),
+           (Rtsp.Async.run (Rtsp.Async.init 4 false) exErr).errors.map (·.id),
+           (Rtsp.Async.run (Rtsp.Async.init 4 false) exErr).accepted.map (·.id),
+           (Rtsp.Async.run (Rtsp.Async.init 4 false) exErr).closer) = ([1, 2], [2], [1, 2, 3, 4], .returned) := by decide
+/-- Close in progress while a callback is held, pushes racing with it (the schedule that ran
+callbacks out of order before /repo commit cd9034b) -/
+def exWindow : List AOp :=
+  [.start, .push ⟨1, false⟩, .cpull, .push ⟨2, false⟩, .closeStep, .closeStep, .push ⟨3, false⟩, .push ⟨4, false⟩,
+   .cexec, .cpull, .closeStep]
+example : ((Rtsp.Async.run (Rtsp.Async.init 2 false) exWindow).executed.map (·.id),
+           (Rtsp.Async.run (Rtsp.Async.init 2 false) exWindow).closer,
+           (Rtsp.Async.run (Rtsp.Async.init 2 false) exWindow).cons) = ([1], .returned, .exited) := by decide
+example : (Rtsp.Async.run (Rtsp.Async.init 2 false) [.start, .push ⟨1, false⟩, .cpull]).ring.closed = false
+    ∧ (∃ c, (Rtsp.Async.run (Rtsp.Async.init 2 false) [.start, .push ⟨1, false⟩, .cpull]).cons = .holding c) :=
+  ⟨by decide, ⟨⟨1, false⟩, by decide⟩⟩
 
 end Rtsp.C16
